@@ -63,6 +63,7 @@ let run_case (toks : string list) : string list =
   | ("lsl" | "msl") :: _ -> helper toks
   | ("parse" | "fts" | "unescape" | "inv" | "half" | "print" | "rt" | "b3hash" | "b3check") :: _ -> B3sum_driver.run_case toks
   | ("kcip" | "kxof" | "khm" | "khmg" | "kxm") :: _ -> Kernel_driver.run_case toks
+  | "CH" :: _ -> C_driver.run_case toks
   | k :: _ -> Machine_driver.run_case k toks
   | [] -> []
 
